@@ -33,6 +33,14 @@ pub struct Codec {
     encoder: encoder::MessageEncoder<Response<()>>,
 }
 
+/// The part of a decoded request that decides how its response is encoded.
+#[derive(Debug, Clone, Copy)]
+pub(crate) struct EncodeCtx {
+    flags: Flags,
+    version: Version,
+    conn_type: ConnectionType,
+}
+
 impl Default for Codec {
     fn default() -> Self {
         Codec::new(ServiceConfig::default())
@@ -102,6 +110,23 @@ impl Codec {
     #[inline]
     pub fn config(&self) -> &ServiceConfig {
         &self.config
+    }
+
+    /// Context (HEAD, upgrade stream, version, connection type) the next response is encoded with.
+    pub(crate) fn encode_ctx(&self) -> EncodeCtx {
+        EncodeCtx {
+            flags: self.flags & (Flags::HEAD | Flags::STREAM),
+            version: self.version,
+            conn_type: self.conn_type,
+        }
+    }
+
+    /// Restores a context saved with [`encode_ctx`](Self::encode_ctx).
+    pub(crate) fn set_encode_ctx(&mut self, ctx: EncodeCtx) {
+        self.flags.remove(Flags::HEAD | Flags::STREAM);
+        self.flags.insert(ctx.flags);
+        self.version = ctx.version;
+        self.conn_type = ctx.conn_type;
     }
 }
 
